@@ -39,56 +39,63 @@ def Ctx.e (c : Ctx) (i : Nat) : F := c.env[i]!
 def Ctx.u (c : Ctx) (i : Nat) : Bool := c.um[i]!
 def Ctx.d (c : Ctx) (i : Nat) : Option F := c.denv[i]!
 
-partial def evalP (c : Ctx) : Sx → Option (Val F)
-  | .list (.atom "opd" :: idx) => do
-    let idx ← idx.mapM Sx.toNat?
-    some (Val.opd idx c.e c.d c.u)
-  | .list (.atom "lit" :: bs) => do
-    let vs ← bs.mapM fbits
-    some ⟨vs, none, true⟩
-  | .list [.atom "add", p, q] => do some (Val.add (← evalP c p) (← evalP c q))
-  | .list [.atom "sub", p, q] => do some (Val.sub (← evalP c p) (← evalP c q))
-  | .list [.atom "neg", p] => do some (Val.neg (← evalP c p))
-  | .list [.atom "nscale", k, p] => do some (Val.nscale (← fbits k) (← evalP c p))
-  | .list [.atom "ndiv", p, k] => do some (Val.ndiv (← evalP c p) (← fbits k))
-  | .list [.atom "smul", p, s] => do some (Val.smul (← evalP c p) (← evalP c s))
-  | .list [.atom "sdiv", p, s] => do some (Val.sdiv (← evalP c p) (← evalP c s))
-  | .list [.atom "u", .atom f, p] => do some (Val.sc1 (← parseE1 f) (← evalP c p))
-  | .list [.atom "powi", n, p] => do some (Val.sc1 (.powi (← n.toInt?) (.var 0)) (← evalP c p))
-  | .list [.atom "powg", k, p] => do some (Val.sc1 (.powg (← fbits k) (.var 0)) (← evalP c p))
-  | .list [.atom "atan2", y, x] => do some (Val.sc2 (.atan2 (.var 0) (.var 1)) (← evalP c y) (← evalP c x))
-  | .list [.atom "dot", p, q] => do some (Val.dot (← evalP c p) (← evalP c q))
-  | .list [.atom "normsq", p] => do some (Val.normSq (← evalP c p))
-  | .list [.atom "norm", p] => do some (Val.norm (← evalP c p))
-  | .list [.atom "cross3", p, q] => do some (Val.cross3 (← evalP c p) (← evalP c q))
-  | .list [.atom "cross2", p, q] => do some (Val.cross2 (← evalP c p) (← evalP c q))
-  | .list [.atom "outer", p, q] => do some (Val.outer (← evalP c p) (← evalP c q))
-  | .list [.atom "emul", p, q] => do some (Val.emul (← evalP c p) (← evalP c q))
-  | .list [.atom "ediv", p, q] => do some (Val.ediv (← evalP c p) (← evalP c q))
-  | .list [.atom "comp", i, p] => do some (Val.comp (← i.toNat?) (← evalP c p))
-  | .list [.atom "slice", i, j, p] => do some (Val.slice (← i.toNat?) (← j.toNat?) (← evalP c p))
-  | .list [.atom "widen", p, q] => do some (Val.widen (← evalP c p) (← evalP c q))
-  | .list [.atom "cat", p, q] => do some (Val.cat (← evalP c p) (← evalP c q))
-  | .list [.atom "matmul", m, k, n, p, q] => do
-    some (Val.matmul (← m.toNat?) (← k.toNat?) (← n.toNat?) (← evalP c p) (← evalP c q))
-  | .list [.atom "transpose", m, n, p] => do some (Val.transpose (← m.toNat?) (← n.toNat?) (← evalP c p))
-  | .list [.atom "inverse", n, p] => do some (Val.inverse (← n.toNat?) (← evalP c p))
-  | .list [.atom "rot", ax, p] => do some (Val.rot (← ax.toNat?) (← evalP c p))
-  | .list [.atom "qmul", p, q] => do some (Val.qmul (← evalP c p) (← evalP c q))
-  | .list [.atom "qconj", p] => do some (Val.qconj (← evalP c p))
-  | .list [.atom "unit", p] => do some (Val.unit (← evalP c p))
-  | .list [.atom "proj", p, q] => do some (Val.proj (← evalP c p) (← evalP c q))
-  | .list [.atom "perp", p, q] => do some (Val.perp (← evalP c p) (← evalP c q))
-  | .list [.atom "ucross", p, q] => do some (Val.ucross (← evalP c p) (← evalP c q))
-  | .list [.atom "withnorm", p, n] => do some (Val.withNorm (← evalP c p) (← evalP c n))
-  | .list [.atom "qrecip", p] => do some (Val.qrecip (← evalP c p))
-  | .list [.atom "fromrotation", a, v] => do some (Val.fromRotation (← evalP c a) (← evalP c v))
-  | .list [.atom "torotation0", q] => do some (Val.toRotation0 (← evalP c q))
-  | .list [.atom "torotation1", q] => do some (Val.toRotation1 (← evalP c q))
-  | .list [.atom "sep", p, q] => do some (Val.sep (← evalP c p) (← evalP c q))
-  | .list [.atom "twovec", a1, a2, p, q] => do some (Val.twovec (← a1.toNat?) (← a2.toNat?) (← evalP c p) (← evalP c q))
-  | .list [.atom "tomatrix3", q] => do some (Val.toMatrix3 (← evalP c q))
+def parseTy : String → Option Ty
+  | "S" => some .S | "V2" => some .V2 | "V3" => some .V3 | "Q" => some .Q | "M2" => some .M2 | "M3" => some .M3
   | _ => none
+
+/-- request program → `ProgW Float` (Model/Dual.lean); composite methods go through the program-building
+    functions `ProgW.unit`, `ProgW.sep`, … (the compositions of the source) -/
+partial def parseP : Sx → Option (ProgW F)
+  | .list (.atom "opd" :: .atom t :: idx) => do some (.opd (← parseTy t) (← idx.mapM Sx.toNat?))
+  | .list [.atom "lit", b] => do some (.lit (← fbits b))
+  | .list [.atom "add", p, q] => do some (.add (← parseP p) (← parseP q))
+  | .list [.atom "sub", p, q] => do some (.sub (← parseP p) (← parseP q))
+  | .list [.atom "neg", p] => do some (.neg (← parseP p))
+  | .list [.atom "nscale", k, p] => do some (.nscale (← fbits k) (← parseP p))
+  | .list [.atom "ndiv", p, k] => do some (.ndiv (← parseP p) (← fbits k))
+  | .list [.atom "smul", p, s] => do some (.smul (← parseP p) (← parseP s))
+  | .list [.atom "sdiv", p, s] => do some (.sdiv (← parseP p) (← parseP s))
+  | .list [.atom "u", .atom f, p] => do some (.sc1 (← parseE1 f) (← parseP p))
+  | .list [.atom "powi", n, p] => do some (.sc1 (.powi (← n.toInt?) (.var 0)) (← parseP p))
+  | .list [.atom "powg", k, p] => do some (.sc1 (.powg (← fbits k) (.var 0)) (← parseP p))
+  | .list [.atom "atan2", y, x] => do some (.sc2 (.atan2 (.var 0) (.var 1)) (← parseP y) (← parseP x))
+  | .list [.atom "dot", p, q] => do some (.dot (← parseP p) (← parseP q))
+  | .list [.atom "normsq", p] => do some (.normSq (← parseP p))
+  | .list [.atom "norm", p] => do some (.norm (← parseP p))
+  | .list [.atom "cross3", p, q] => do some (.cross3 (← parseP p) (← parseP q))
+  | .list [.atom "cross2", p, q] => do some (.cross2 (← parseP p) (← parseP q))
+  | .list [.atom "outer", p, q] => do some (.outer (← parseP p) (← parseP q))
+  | .list [.atom "emul", p, q] => do some (.emul (← parseP p) (← parseP q))
+  | .list [.atom "ediv", p, q] => do some (.ediv (← parseP p) (← parseP q))
+  | .list [.atom "comp", i, p] => do some (.comp (← i.toNat?) (← parseP p))
+  | .list [.atom "slice", i, j, p] => do some (.slice (← i.toNat?) (← j.toNat?) (← parseP p))
+  | .list [.atom "widen", p, q] => do some (.widen (← parseP p) (← parseP q))
+  | .list [.atom "cat", p, q] => do some (.cat (← parseP p) (← parseP q))
+  | .list [.atom "rowcat3", p, q, r] => do some (.rowcat3 (← parseP p) (← parseP q) (← parseP r))
+  | .list [.atom "matmul", m, k, n, p, q] => do
+    some (.matmul (← m.toNat?) (← k.toNat?) (← n.toNat?) (← parseP p) (← parseP q))
+  | .list [.atom "transpose", m, n, p] => do some (.transpose (← m.toNat?) (← n.toNat?) (← parseP p))
+  | .list [.atom "inverse", n, p] => do some (.inverse (← n.toNat?) (← parseP p))
+  | .list [.atom "rot", ax, p] => do some (.rot (← ax.toNat?) (← parseP p))
+  | .list [.atom "qmul", p, q] => do some (.qmul (← parseP p) (← parseP q))
+  | .list [.atom "qconj", p] => do some (.qconj (← parseP p))
+  | .list [.atom "tomatrix3", q] => do some (.toMatrix3 (← parseP q))
+  | .list [.atom "unit", p] => do some (ProgW.unit (← parseP p))
+  | .list [.atom "proj", p, q] => do some (ProgW.proj (← parseP p) (← parseP q))
+  | .list [.atom "perp", p, q] => do some (ProgW.perp (← parseP p) (← parseP q))
+  | .list [.atom "ucross", p, q] => do some (ProgW.ucross (← parseP p) (← parseP q))
+  | .list [.atom "withnorm", p, n] => do some (ProgW.withNorm (← parseP p) (← parseP n))
+  | .list [.atom "qrecip", p] => do some (ProgW.qrecip (← parseP p))
+  | .list [.atom "mdiv", n, p, q] => do some (ProgW.mdiv (← n.toNat?) (← parseP p) (← parseP q))
+  | .list [.atom "fromrotation", a, v] => do some (ProgW.fromRotation (← parseP a) (← parseP v))
+  | .list [.atom "torotation0", q] => do some (ProgW.toRotation0 (← parseP q))
+  | .list [.atom "torotation1", q] => do some (ProgW.toRotation1 (← parseP q))
+  | .list [.atom "sep", p, q] => do some (ProgW.sep (← parseP p) (← parseP q))
+  | .list [.atom "twovec", a1, a2, p, q] => do
+    some (ProgW.twovec (← a1.toNat?) (← a2.toNat?) (← parseP p) (← parseP q))
+  | _ => none
+
+def evalP (c : Ctx) (p : Sx) : Option (Val F) := (parseP p).map fun q => q.run c.e c.d c.u
 
 def outBits (l : List F) : Sx := .list (l.map fun x => Sx.ofNat x.toBits.toNat)
 
